@@ -181,9 +181,21 @@ fn trusted_json(prog: &[u8], refs: &[Vec<u8>], flags: ConsensusFlags, consts: &C
         Err(e) => json!({"ok": false, "errname": err_name(&e)}),
     });
     let csc = guard(|| match get_coinspends_with_conditions_for_trusted_block(&consts.c, &program, refs.iter(), flags) {
-        Ok(v) => json!({"ok": true, "n": v.len(),
-            "coins": Value::Array(v.iter().map(|(c, _)| coin_json(&c.coin)).collect()),
-            "nconds": Value::Array(v.iter().map(|(_, conds)| json!(conds.len())).collect())}),
+        Ok(v) => {
+            // the raw condition listing (judged against ListingOfConds of Generator.tla) when it is small enough to log
+            let nconds: usize = v.iter().map(|(_, conds)| conds.len()).sum();
+            let nbytes: usize = v.iter().map(|(_, conds)| conds.iter().map(|(_, a)| a.iter().map(|x| x.len()).sum::<usize>()).sum::<usize>()).sum();
+            let listed = nconds <= 6000 && nbytes <= 400_000;
+            let listing = if listed {
+                Value::Array(v.iter().map(|(_, conds)| Value::Array(conds.iter().map(|(op, a)| json!({"op": op, "args": Value::Array(a.iter().map(|x| jbytes(x)).collect())})).collect())).collect())
+            } else {
+                json!([])
+            };
+            json!({"ok": true, "n": v.len(),
+                "coins": Value::Array(v.iter().map(|(c, _)| coin_json(&c.coin)).collect()),
+                "nconds": Value::Array(v.iter().map(|(_, conds)| json!(conds.len())).collect()),
+                "listed": listed, "listing": listing})
+        }
         Err(e) => json!({"ok": false, "errname": err_name(&e)}),
     });
     // get_puzzle_and_solution_for_coin needs the generator output; run the generator like the node does
@@ -225,6 +237,11 @@ pub struct GenInput {
 }
 
 const TREE_LIMIT: usize = 4000;
+/// per-event override of TREE_LIMIT (the listing-cap family needs puzzle outputs of > 1024 conditions logged)
+static TREE_LIMIT_CUR: std::sync::atomic::AtomicUsize = std::sync::atomic::AtomicUsize::new(TREE_LIMIT);
+fn tree_limit() -> usize {
+    TREE_LIMIT_CUR.load(std::sync::atomic::Ordering::Relaxed)
+}
 
 pub fn gen_event(inp: &GenInput, consts: &Consts, with_trusted: bool) -> Value {
     let flags = gen_flags(&inp.flags);
@@ -255,7 +272,7 @@ pub fn gen_event(inp: &GenInput, consts: &Consts, with_trusted: bool) -> Value {
         ev["undecodable"] = json!(true);
         return ev;
     };
-    let small_prog = sx_size(&tree) <= TREE_LIMIT;
+    let small_prog = sx_size(&tree) <= tree_limit();
     if small_prog {
         ev["prog"] = tree.to_jsonf();
     }
@@ -269,7 +286,7 @@ pub fn gen_event(inp: &GenInput, consts: &Consts, with_trusted: bool) -> Value {
         let dm = Sx::from_node(&a, d);
         Sx::list(vec![dm, Sx::list(inp.refs.iter().map(|r| Sx::A(r.clone())).collect())])
     };
-    let genrun = clvm_oracle(&tree, &args, flags, TREE_LIMIT);
+    let genrun = clvm_oracle(&tree, &args, flags, tree_limit());
     let mut opaque = !small_prog && false;
     let mut runs = Vec::new();
     let mut vk = Vec::new();
@@ -284,7 +301,7 @@ pub fn gen_event(inp: &GenInput, consts: &Consts, with_trusted: bool) -> Value {
                 for sp in items {
                     let (f, _) = list_items(sp);
                     if f.len() >= 4 {
-                        let run = clvm_oracle(f[1], f[3], flags, TREE_LIMIT);
+                        let run = clvm_oracle(f[1], f[3], flags, tree_limit());
                         if run["ok"].as_bool() == Some(true) && run["big"].as_bool() == Some(false) {
                             collect_48(&Sx::from_json(&run["res"]), &mut vk);
                         }
@@ -318,7 +335,7 @@ pub fn gen_event(inp: &GenInput, consts: &Consts, with_trusted: bool) -> Value {
     if with_trusted && ev["native"]["ok"].as_bool() == Some(true) {
         lookups.truncate(6);
         lookups.push(Coin::new(Bytes32::try_from([9u8; 32].as_slice()).unwrap(), Bytes32::try_from([8u8; 32].as_slice()).unwrap(), 12345));
-        ev["trusted"] = trusted_json(&inp.prog, &inp.refs, flags, consts, &lookups, TREE_LIMIT);
+        ev["trusted"] = trusted_json(&inp.prog, &inp.refs, flags, consts, &lookups, tree_limit());
     }
     ev
 }
@@ -487,6 +504,52 @@ pub fn record(args: &Args) {
         } else {
             out.emit(&ev);
         }
+    }
+    // listing-cap family (get_coinspends_with_conditions_for_trusted_block keeps only AGG_SIG_* / CREATE_COIN once 1024
+    // conditions of a spend are listed): one spend of the identity puzzle whose solution is a long condition list that
+    // crosses the cap at a chosen position, with created coins, remarks, long atoms, pairs and > 6 arguments around it
+    let ncap = if args.u64("n", 0) == 0 { 0 } else if args.u64("n", 0) >= 2000 { 12 } else { 3 };
+    for _ in 0..ncap {
+        let ident = Sx::A(vec![1]);
+        let ph = tree_hash_sx(&ident);
+        let mut conds: Vec<Sx> = Vec::new();
+        let low = |r: &mut StdRng| -> Sx {
+            match r.random_range(0..4) {
+                0 => Sx::list(vec![Sx::A(vec![1])]),
+                1 => Sx::list(vec![Sx::A(vec![1]), Sx::A(rand_bytes(r, 3))]),
+                2 => Sx::list(vec![Sx::A(vec![73]), Sx::A(vec![3, 232])]),
+                _ => Sx::list(vec![Sx::A(vec![1]), Sx::list(vec![Sx::A(vec![7])]), Sx::A(vec![9])]),
+            }
+        };
+        let before = [1020usize, 1022, 1023, 1024, 1025][r.random_range(0..5)];
+        for _ in 0..before {
+            let c = low(&mut r);
+            conds.push(c);
+        }
+        // not listed at all: atom condition, pair opcode, non-canonical / negative / oversized opcode, 1024-byte argument
+        conds.insert(r.random_range(0..20), Sx::list(vec![Sx::A(vec![1]), Sx::A(vec![5u8; 1024])]));
+        conds.insert(r.random_range(0..20), Sx::list(vec![Sx::A(vec![1]), Sx::A(vec![5u8; 1023])]));
+        conds.insert(r.random_range(0..20), Sx::list(vec![Sx::A(vec![1]), Sx::A(vec![1]), Sx::A(vec![2]), Sx::A(vec![3]), Sx::list(vec![Sx::A(vec![4])]), Sx::A(vec![4]), Sx::A(vec![5]), Sx::A(vec![6]), Sx::A(vec![7]), Sx::A(vec![8u8; 1024])]));
+        let mut amt = 1u8;
+        for _ in 0..r.random_range(2..6) {
+            let c = low(&mut r);
+            conds.push(c);
+            conds.push(Sx::list(vec![Sx::A(vec![51]), Sx::A(rand_bytes(&mut r, 32)), Sx::A(vec![amt])]));
+            amt += 1;
+            if r.random::<bool>() {
+                conds.push(Sx::list(vec![Sx::A(vec![51]), Sx::A(rand_bytes(&mut r, 32)), Sx::A(vec![0, 128 + amt]), Sx::list(vec![Sx::A(rand_bytes(&mut r, 32))])]));
+            }
+        }
+        let outp = Sx::list(vec![Sx::list(vec![Sx::list(vec![Sx::A(rand_bytes(&mut r, 32)), ident.clone(), Sx::A(vec![3, 232]), Sx::list(conds)])])]);
+        let _ = ph;
+        let prog_tree = Sx::cons(Sx::A(vec![1]), outp);
+        let flags = vec!["DONT_VALIDATE_SIGNATURE".to_string()];
+        let inp = GenInput { refsel: None, prog: ser_plain(&prog_tree), prog_tree: Some(prog_tree), ser: "plain".to_string(), refs: vec![], flags, max: BLOCK_MAX, src: "random".to_string() };
+        TREE_LIMIT_CUR.store(40_000, std::sync::atomic::Ordering::Relaxed);
+        let mut ev = gen_event(&inp, &consts, trusted);
+        TREE_LIMIT_CUR.store(TREE_LIMIT, std::sync::atomic::Ordering::Relaxed);
+        ev["listcap"] = json!(before);
+        out.emit(&ev);
     }
     // the repository's generator corpus (opaque to the spec when the output is large)
     if let Some(dir) = args.get("corpus") {
